@@ -203,10 +203,22 @@ class LibMixin:
         return self.opaque("type", pos)
 
     def bi_iter(self, pos, kw, st, exc, e):
+        # an iterator over a list, used linearly (one name, next() calls and at most one for loop): modelled as the
+        # sequence of the elements still to come
+        v = pos[0] if pos else None
+        if v is not None and v.ty.kind == "list" and v.ty.args[0].kind != "unknown":
+            return SV(v.ty, v.ts, py="iter")
         raise Unsupported("iter()")
 
     def bi_next(self, pos, kw, st, exc, e):
         d = self.contract.calls.get("next")
+        if d is None and len(pos) == 1 and pos[0].py == "iter" and pos[0].ty.kind == "list" and isinstance(e.args[0], ast.Name):
+            it = pos[0]
+            self.require_noexc(st, smt.Gt(smt.Len(it.ts[0]), smt.Int(0)), "StopIteration", "next_of_exhausted_iterator", exc)
+            head = SV(it.ty.args[0], [smt.At(c, smt.Int(0)) for c in it.ts])
+            rest = SV(it.ty, [smt.Substr(c, smt.Int(1), smt.Sub(smt.Len(c), smt.Int(1))) for c in it.ts], py="iter")
+            st.env[e.args[0].id] = rest
+            return head
         if d is None:
             raise Unsupported("next() without a calls['next'] contract")
         from . import contracts as C
